@@ -49,6 +49,14 @@ class IVar:
         return "<variant of %s>" % self.node.uid
 
 
+class FormatterV:
+    """std::fmt::Formatter: collects the pieces written to it."""
+    __slots__ = ("out",)
+
+    def __init__(self, out):
+        self.out = out
+
+
 class MutBorrow:
     """`&mut tuple`: destructuring it binds scalars as slot references."""
     __slots__ = ("v",)
@@ -1424,9 +1432,22 @@ class Interp:
                             sc = env.lookup(nm)
                             if sc is not None:
                                 caps[nm] = self.deref(sc.vars[nm])
+                            else:
+                                c = self.find_const(mod, [nm])
+                                if c is not _MISSING:
+                                    caps[nm] = c
                 if caps:
                     r.captures = caps
             return r
+        if name == "write":
+            # write!(f, "fmt", args..): append the rendered pieces to the formatter value
+            f = self.deref(self.eval(e["args"][0], env, mod))
+            if not isinstance(f, FormatterV):
+                raise InternalError("write! to %s" % type(f).__name__)
+            fmt = self.eval(e["args"][1], env, mod)
+            args = [self.eval(x, env, mod) for x in e["args"][2:]]
+            self.render_format(fmt, args, lambda nm: self.lookup_capture(nm, env, mod), f.out)
+            return Adt("Result", "Ok", [UNIT])
         if name == "panic":
             args = [self.eval(x, env, mod) for x in e["args"]]
             fmt = args[0] if args else ""
@@ -1443,6 +1464,110 @@ class Interp:
                 self.panic("assertion failed", e, mod, "assert")
             return UNIT
         raise InternalError("macro %s!" % name)
+
+    def lookup_capture(self, nm, env, mod):
+        sc = env.lookup(nm)
+        if sc is not None:
+            return self.deref(sc.vars[nm])
+        c = self.find_const(mod, [nm])
+        if c is not _MISSING:
+            return c
+        raise InternalError("format capture %s not found" % nm)
+
+    def render_format(self, fmt, args, capture, out):
+        """Append the pieces of a format string: text (str) and displayed values."""
+        if not isinstance(fmt, str):
+            raise InternalError("non-literal format string")
+        i = 0
+        n = len(fmt)
+        nxt = 0
+        buf = ""
+        while i < n:
+            c = fmt[i]
+            if c == "{":
+                if i + 1 < n and fmt[i + 1] == "{":
+                    buf += "{"
+                    i += 2
+                    continue
+                j = fmt.index("}", i)
+                hole = fmt[i + 1:j]
+                if ":" in hole:
+                    hole = hole.split(":")[0]
+                if buf:
+                    out.append(buf)
+                    buf = ""
+                if hole == "":
+                    v = args[nxt]
+                    nxt += 1
+                elif hole.isdigit():
+                    v = args[int(hole)]
+                else:
+                    v = capture(hole)
+                self.display_value(v, out)
+                i = j + 1
+                continue
+            if c == "}":
+                if i + 1 < n and fmt[i + 1] == "}":
+                    buf += "}"
+                    i += 2
+                    continue
+                raise InternalError("stray } in format string")
+            buf += c
+            i += 1
+        if buf:
+            out.append(buf)
+
+    def display_value(self, v, out):
+        """Display::fmt of a value, appended to out: str pieces, ('name', obj), ('int', Big|sym)."""
+        v = self.resolve(v)
+        if isinstance(v, str):
+            out.append(v)
+            return
+        if isinstance(v, Str):
+            if v.s is not None:
+                out.append(v.s)
+                return
+            parts = v.parts
+            if parts and parts[0] == "display":
+                return self.display_value(parts[1], out)
+            if parts and isinstance(parts[0], str) and parts[0] not in ("throw", "join", "repeat"):
+                caps = v.captures or {}
+
+                def cap(nm):
+                    if nm in caps:
+                        return caps[nm]
+                    raise InternalError("format capture %s not recorded" % nm)
+                return self.render_format(parts[0], list(parts[1:]), cap, out)
+            raise InternalError("display of string %r" % (v,))
+        if isinstance(v, (Big,)):
+            out.append(("int", v))
+            return
+        if isinstance(v, int) and not isinstance(v, bool):
+            out.append(str(v))
+            return
+        if isinstance(v, InputTerm):
+            v2 = Struct("term::Term", {"source_range": v.sr, "variant": IVar(v)})
+            return self.display_impl("Term", v2, out)
+        if isinstance(v, Struct):
+            return self.display_impl(v.name.split("::")[-1], v, out)
+        if isinstance(v, (Adt, IVar)):
+            tname = v.enum.split("::")[-1] if isinstance(v, Adt) else "Variant"
+            return self.display_impl(tname, v, out)
+        if hasattr(v, "sym_eq") or hasattr(v, "concrete"):
+            out.append(("name", v))
+            return
+        raise InternalError("display of %s" % type(v).__name__)
+
+    def display_impl(self, tname, v, out):
+        for m in self.modules.values():
+            for im in m.impls:
+                if im.get("trait", "").split("::")[-1] == "Display" and im["self_ty"].split("<")[0].strip() == tname:
+                    for fn in im["fns"]:
+                        if fn["name"] == "fmt":
+                            f = FormatterV(out)
+                            r = self.call_fn_raw(m, fn, [v, f])
+                            return r
+        raise InternalError("no Display impl for %s" % tname)
 
     def format(self, args):
         fmt = args[0]
